@@ -52,7 +52,7 @@ def m_nl(ctx, case):
             ctx.hit("float_after_equal_float32")
         r = call(f, conv(lat))
         ctx.ev()
-        if case.get("kind") == "tiny":
+        if case.get("kind") not in ("grid", "random"):
             # the same call in a host program that turns floating-point anomalies into exceptions and warnings into errors
             import warnings
             import numpy as np
@@ -61,7 +61,7 @@ def m_nl(ctx, case):
                 rs = call(f, conv(lat))
             ctx.ev()
             if rs != r:
-                ctx.violation("cprNL-depends-on-error-policy-near-zero", lat=lat, as_type=case.get("as", "float"), default_policy=r[1:], strict_policy=rs[1:])
+                ctx.violation("cprNL-depends-on-error-policy", lat=lat, as_type=case.get("as", "float"), default_policy=r[1:], strict_policy=rs[1:])
         allowed = cpr.NL_allowed(lat)
         if r[0] != "ok":
             ctx.violation("cprNL-raises", lat=lat, observed=r[1:])
